@@ -564,8 +564,16 @@ func RunIngress(cases []IngressCase, seed int64, sizes []int, modes, impls []str
 					case p && !readable:
 						bad("claimed digest is reported present but does not read back as its content (%s)", pd)
 					}
-					// nothing may be stored by a refused upload: the true content's digest
-					// must not appear either, unless it was there before
+					// C14: whatever the answer, nothing of the request stays behind - no descriptor into the
+					// cache directory (a deleted temporary file still open counts), no reservation
+					if !waitFor(func() bool { return openCacheFiles(f.Dir) == 0 }, 3*time.Second) {
+						viols = append(viols, drv.Violation{Prop: "C14", What: sig + fmt.Sprintf(" mode=%s impl=%s size=%d: %d descriptor(s) into the cache directory still open 3 s after the upload was answered %q", mode, impl, size, openCacheFiles(f.Dir), oc), Hist: ci, Op: size})
+					}
+					if _, resv, _, _ := f.Cache.Stats(); resv != 0 {
+						if !waitFor(func() bool { _, r, _, _ := f.Cache.Stats(); return r == 0 }, 3*time.Second) {
+							viols = append(viols, drv.Violation{Prop: "C14", What: sig + fmt.Sprintf(" mode=%s impl=%s size=%d: %d bytes still reserved 3 s after the upload was answered %q", mode, impl, size, resv, oc), Hist: ci, Op: size})
+						}
+					}
 					runs = append(runs, run)
 				}
 				for _, f := range fixtures {
